@@ -13,6 +13,10 @@ CHECKS = {
    text="Lean theorems: for every sequence of put/del the untrimmed bolt model keeps a strictly sorted key list whose entries carry their own round and Get answers exactly as a plain round->beacon map (refinement by induction over the op list); Last is the maximum; a cursor over a snapshot enumerates exactly the snapshot in strictly ascending order, Seek lands on the least round >= the argument and on the round itself when stored, every cursor read is an entry of the snapshot; trimmed store reads are labelled with the key found and the reconstructed previous signature is the stored signature of round-1 or the read fails; the memdb model stays sorted and within capacity for every op sequence, keeps an existing round, forgets only the smallest rounds, and its positional cursor only returns stored elements. Tied to the code by running the real boltdb (trimmed/untrimmed, with/without previous-required) and memdb stores against the model's executable definitions and against an independent sorted-map oracle.",
    note="Lean kernel + standard axioms; bbolt's snapshot/ordering semantics are modelled, not verified; PostgreSQL back-end not modelled; harness.",
    technique="Lean 4 proof (induction over op sequences, refinement to a map) + differential correspondence with real bbolt/memdb + sorted-map oracle"),
+ "C19": dict(engine="route", design="§3 C19",
+   text="Lean theorems over a line-by-line model of readBeaconID / getBeaconProcessByID / getBeaconProcessFromRequest, InstantiateBeaconProcess, AddBeaconHandler, RemoveBeaconHandler, RemoveBeaconProcess, LoadBeacon(FromStore/sFromDisk), Shutdown, storeDKGOutput + dkgCallback and the HTTP handler table: for every history of key-folder changes, LoadBeacon and Shutdown calls (any length) both routing tables only name running processes whose own group has exactly the chain hash of the entry (no stale entry; with DKG completions and start-up loads under two stated hypotheses, with a counterexample showing the first is needed); a request that is handed to a process is handed to the process its id names, whose chain hash is the requested one when the hash is known, and a process without group when it is not (the coded pending-DKG exception); a mismatching id/hash pair is rejected; a known hash alone selects its chain; neither id nor hash goes to the default chain; the HTTP table selects for a decoded hash only a running process of that hash and the default entry is reachable only without a hash (hex strings are never 'default'); after Shutdown the id and hash resolve nowhere and every request/HTTP path answered by another chain keeps its answer; a successful load makes id, hash and both resolve to the new process and disturbs no request that does not name the new hash. Tied to the code by regenerated helper definitions and statement scripts of the 19 anchored functions (rfl against golden copies) and by a differential run on a real DrandDaemon driven through its real control entry points, with an independent routing oracle on the answers of the real service methods and HTTP handler.",
+   note="Lean kernel + standard axioms; hypotheses: group.ID equals the beacon id it is stored under, a resharing keeps the chain hash, LoadBeaconsFromDisk only at start-up, distinct chains have distinct non-empty hashes (remove_local); the DKG database is a stub in the harness; isolation of *content* beyond routing (a BeaconProcess answers from its own group/store only) is observed by the oracle (returned chain info / identity / group / verified randomness), not proved; locks and concurrent control calls are not modelled; go2lean; harness.",
+   technique="Lean 4 proof (invariant over event histories, association-list maps) + regenerated definitions/statement scripts tied by rfl + differential correspondence on a real daemon + independent routing oracle (thorough: live 1-of-1 chains, randomness verified under the named chain's key)"),
  "C17": dict(engine="hash", design="§3 C17",
    text="Lean theorems over the byte-exact preimages of Info.Hash and Group.Hash (layouts regenerated from the source and tied by rfl): determinism incl. id canonicalisation, every single-field change (period, genesis, public key, seed, id; member key/index, threshold, genesis, transition incl. 0<->non-0, dist key, id) changes the preimage (inner hashes under an explicit collision-freedom hypothesis), joint injectivity under fixed key/seed lengths with the seed/id ambiguity exhibited otherwise, independence of node listing order (sorting of a permutation with distinct indices), chain hash ignores membership, decode rejects a mismatching embedded hash. Tied to the code by hashing the model's preimage (python hashlib) and comparing with the real Hash() on generated groups over all 5 schemes, plus equality across TOML/protobuf/JSON paths and inequality under perturbation on the real code.",
    note="Lean kernel + standard axioms; SHA-256/BLAKE2b collision freedom is a hypothesis; go2lean layout extractor; python hashlib; kyber point encodings opaque.",
